@@ -294,7 +294,7 @@ class Gen:
         njars = r.choice([2, 3, 3])
         private = r.random() < 0.4          # every jar gets its own name space (hypothesis of noninterference)
         n = r.randint(5, 40)
-        guess = [{"cred": None, "in": False} for _ in range(njars)]
+        guess = [{"cred": None, "in": False, "probs": []} for _ in range(njars)]
         out = []
         for _ in range(n):
             j = r.randrange(njars)
@@ -311,8 +311,8 @@ class Gen:
 
     def request(self, j, g, private):
         r = self.r
-        kinds = [("register", 10), ("login", 10), ("logout", 4), ("info", 5), ("update", 7), ("delacc", 3),
-                 ("add", 16), ("solve", 12), ("get", 10), ("list", 7), ("delete", 5), ("bad", 2)]
+        kinds = [("register", 8), ("login", 8), ("logout", 4), ("info", 4), ("update", 7), ("delacc", 3),
+                 ("add", 14), ("solve", 22), ("get", 10), ("list", 6), ("delete", 4), ("bad", 2)]
         if not g["in"]:
             kinds = [("register", 30), ("login", 30), ("add", 12), ("logout", 1), ("info", 2), ("update", 2),
                      ("delacc", 1), ("solve", 2), ("get", 2), ("list", 2), ("delete", 1), ("bad", 1)]
@@ -347,7 +347,9 @@ class Gen:
         if k == "add":
             g["in"] = True     # unauthenticated add creates a temporary account
             name = self.wpick([(PNAMES[0], 5), (PNAMES[1], 4), ("", 2)])
-            code = self.wpick([(c, 3) for c in CODES] + [("", 1)])
+            code = self.wpick([(c, 6) for c in CODES[:4]] + [(c, 2) for c in CODES[4:]] + [("", 1)])
+            if name:
+                g["probs"].append(name)
             parsing = self.wpick([("Naive", 6), ("Hybrid", 6), ("Hybri", 1)])
             f = [("name", name)]
             x = r.random()
@@ -361,6 +363,8 @@ class Gen:
                 f.append(("parsing", parsing))
             return ("POST", "/adf/add", f)
         pn = self.wpick([(PNAMES[0], 6), (PNAMES[1], 4), ("~p1", 1), ("p9", 1)])
+        if g["probs"] and r.random() < 0.7:
+            pn = g["probs"][-1]
         if k == "solve":
             s = self.wpick([(x, 4) for x in STRATEGIES] + [("Nonsense", 1)])
             return ("PUT", "/adf/%s/solve" % pn, [("strategy", s)])
@@ -625,8 +629,11 @@ class Run:
 
     def report_tasks(self, writes):
         """match the pending tasks with the applied writes (in write order)"""
-        done = getattr(self, "_reported", 0)
-        for e in writes[done:]:
+        seen = self.__dict__.setdefault("_reported", set())
+        for e in writes:
+            if e["seq"] in seen:
+                continue
+            seen.add(e["seq"])
             # the write belongs to the oldest pending task with this (task kind, name, username)
             kind = "Parse" if "adf" in e["set_keys"] else "Solve:" + KEY_STRAT.get(e["set_keys"][0].split(".", 1)[1], "?")
             f = e["filters"][0]
@@ -640,7 +647,6 @@ class Run:
                 continue
             jn, n, task, actor, _pos = self.pending.pop(idx)
             self.taskdone(jn, n, task, actor, e)
-        self._reported = len(writes)
 
     def taskdone(self, jn, n, task, actor, e):
         self.stats["tasks"] += 1
@@ -655,6 +661,8 @@ class Run:
         self.emit(line)
         summary = canon_owe(owe, self.detail)
         self.emit("= %s %s" % ("written" if e.get("n", 0) >= 1 else "nodoc", summary))
+        if self.detail and task == "Parse":
+            self.emit("~ ok")
         # the write is a command issued for the spawning request's identity
         fu = e["filters"][0].get("username")
         self.iso.append("c/update/%s/%s" % (self.names.ren(fu) if isinstance(fu, str) else "-",
@@ -765,13 +773,15 @@ class Run:
                 self.stats["models"] += len(acs)
                 code = hx(info["code"])
                 self.emit("result %s %s %s" % (key, code, table))
-                self.emit("= " + (";".join(sorted(acs)) or "-"))
+                if self.mode != "d9b":
+                    self.emit("= " + (";".join(sorted(acs)) or "-"))
                 self.emit("~ " + (" ".join(sorted(tfu(x["ac"]) for x in owe["content"])) or "-"))
                 for x in owe["content"]:
                     self.stats["graphs"] += 1
                     g = canon_graph(x["graph"])
                     self.emit("graphcheck %s %s %s %s %s" % (key, code, table, ",".join(x["ac"]) or "-", g))
-                    self.emit("= " + fnv64(g))
+                    if self.mode != "d9b":
+                        self.emit("= " + fnv64(g))
                     self.emit("~ ok")
 
 
@@ -982,6 +992,7 @@ def run_d9a(rig, out, k, seed):
     h = rig.stub.hold("update", "adf-problems", k=0, key_prefix="acs_per_strategy.stable")
     run.http("j0", "PUT", "/adf/p1/solve", [("strategy", "Stable")], wait=False)
     arrived = h.wait_arrived(60)
+    run.emit("taskfin j0 1")       # the blocking part is over (its write is what the stub holds back)
     run.http("j0", "DELETE", "/users/delete", None)
     cred2 = [("username", "alice"), ("password", PWS[1])]
     run.http("j1", "POST", "/users/register", cred2)
@@ -1019,6 +1030,7 @@ def run_d9b(rig, out, k, seed):
     h = rig.stub.hold("update", "adf-problems", k=0, key_prefix="acs_per_strategy.stable")
     run.http("j0", "PUT", "/adf/p1/solve", [("strategy", "Stable")], wait=False)
     arrived = h.wait_arrived(60)
+    run.emit("taskfin j0 1")
     run.http("j0", "DELETE", "/adf/p1", None)
     run.accepted -= 1
     run.http("j0", "POST", "/adf/add", [("name", "p1"), ("code", CODE_B), ("parsing", "Naive")])
